@@ -48,7 +48,9 @@ PROPS = {
     lean=["C01", "C01_LockRing", "C13_ZeroCopy"],
     scenarios=[ring("atomic", "mixed", 1600), ring("fullsync", "mixed", 1600)] +
               [dict(bin="uni", args=[f"kind={k}", "sub=flow"], runs=300, model_name="M8 Wake", kinds=["invented", "duplicate", "rejected_delivered", "lost", "panic"]) for k in UNI_KINDS] +
-              [dict(bin="uni", args=[f"kind={k}", "sub=cancel"], runs=300, model_name="M8 Wake", kinds=["buffered_event_dropped_at_end", "invented", "duplicate", "rejected_delivered", "panic"]) for k in UNI_KINDS],
+              [dict(bin="uni", args=[f"kind={k}", "sub=cancel"], runs=300, model_name="M8 Wake", kinds=["buffered_event_dropped_at_end", "invented", "duplicate", "rejected_delivered", "panic"]) for k in UNI_KINDS] +
+              # every hook of the containers / of the crossbeam glue a yield point (interleavings INSIDE one send / poll): oracle only
+              [dict(bin="uni", args=[f"kind={k}", "sub=fine"], runs=300, model=False, model_name="(oracle only, fine granularity)", kinds=["lost", "invented", "duplicate", "rejected_delivered", "order", "panic"]) for k in UNI_KINDS],
     rule=RING_RULE,
     trusted_base=TB_COMMON + ["crossbeam-channel (movable crossbeam Uni channel) is trusted to be a linearizable bounded MPMC queue"],
     assumptions=["payloads are distinct integers (the containers are payload-agnostic)"],
@@ -58,7 +60,8 @@ PROPS = {
     level_note=LN_RING,
     lean=["C02", "C02_LockRing", "C13_ZeroCopy"],
     scenarios=[ring("atomic", "mixed", 1600), ring("fullsync", "mixed", 1600)] +
-              [dict(bin="uni", args=[f"kind={k}", "sub=flow"], runs=300, model_name="M8 Wake", kinds=["order", "invented", "duplicate", "lost", "panic"]) for k in UNI_KINDS],
+              [dict(bin="uni", args=[f"kind={k}", "sub=flow"], runs=300, model_name="M8 Wake", kinds=["order", "invented", "duplicate", "lost", "panic"]) for k in UNI_KINDS] +
+              [dict(bin="uni", args=[f"kind={k}", "sub=fine"], runs=300, model=False, model_name="(oracle only, fine granularity)", kinds=["lost", "invented", "duplicate", "order", "panic"]) for k in UNI_KINDS],
     rule=RING_RULE,
     trusted_base=TB_COMMON,
     assumptions=["`full` is judged with slots held by sends in progress / reservations counted as taken, as the property states"],
@@ -91,6 +94,7 @@ PROPS = {
     level_note=LN_HANDLES,
     lean=["C14"],
     scenarios=[handles("atomic", 1600), handles("fullsync", 1600),
+               dict(bin="handles", args=["sub=shared"], runs=600, model=False, model_name="(oracle only: one handle shared by reference, scheduled at every reference-counter access)"),
                dict(bin="handles", args=["sub=freerun"], runs=3000, model=False, single=True, thorough_scale=20, model_name="(free-running threads: concurrent clones of a sole shared handle)")],
     rule=HANDLES_RULE,
     trusted_base=TB_COMMON,
@@ -143,6 +147,7 @@ PROPS = {
     level_note="Theorem about model M8 under the hypothesis that different streams are driven by tasks with different wakers (TokRun); stream-id recycling is C10's bookkeeping theorem. Known finding: ending a proper subset of a Uni channel's streams starves the others.",
     lean=["C07", "C07_CancelAll"],
     scenarios=[dict(bin="uni", args=[f"kind={k}", "sub=cancel"], runs=500, model_name="M8 Wake", kinds=["cancelled_stream_never_ended", "untargeted_stream_starved", "buffered_event_dropped_at_end", "no_progress", "panic", "invented", "duplicate"]) for k in UNI_KINDS] +
+              [dict(bin="multi", args=[f"kind={k}", "sub=reuse"], runs=300, model=False, model_name="(oracle only: a stream id handed out again while its previous owner's removal is finishing)", kinds=["uncancelled_stream_ended", "no_progress", "panic"]) for k in MULTI_KINDS] +
               [dict(bin="multi", args=[f"kind={k}", "sub=cancelall"], runs=400, model=False, model_name="(oracle only: cancel_all_streams racing with the removal of a listener, Multi channels)", kinds=["cancelled_stream_never_ended", "no_progress", "panic"]) for k in MULTI_KINDS],
     rule=UNI_RULE + "; cancel requests for a random subset of the streams are injected after a random number of scheduler turns; `multi sub=cancelall`: 2-3 listeners of a Multi channel (MAX_STREAMS = 4) driven by tasks polled only while notified, one thread removing a listener, one calling cancel_all_streams(), a producer sending 0-2 events",
     trusted_base=TB_COMMON,
